@@ -14,14 +14,14 @@ use serde::{Deserialize, Serialize};
 use std::collections::HashMap;
 use std::sync::OnceLock;
 
-const REPO_TESTS: &str = "/repo/tests";
+use crate::chain::repo_tests;
 
 /// messages from the repository's example files (dlt and asc), parsed once per worker
 fn pool() -> &'static Vec<DltMessage> {
     static POOL: OnceLock<Vec<DltMessage>> = OnceLock::new();
     POOL.get_or_init(|| {
         let mut v = vec![];
-        let mut names: Vec<_> = std::fs::read_dir(REPO_TESTS).map(|rd| rd.flatten().map(|e| e.path()).collect()).unwrap_or_default();
+        let mut names: Vec<_> = std::fs::read_dir(repo_tests()).map(|rd| rd.flatten().map(|e| e.path()).collect()).unwrap_or_default();
         names.sort();
         for p in names {
             let ext = p.extension().and_then(|e| e.to_str()).unwrap_or("").to_string();
@@ -181,11 +181,11 @@ const PLUGIN_NAMES: [&str; 6] = ["NonVerbose", "SomeIp", "CAN", "Muniic", "Rewri
 fn mk_plugin(k: usize, keep_flda: bool) -> Option<Box<dyn Plugin + Send>> {
     let mut eac = EacStats::new();
     let cfg = match k {
-        0 => serde_json::json!({"name":"NonVerbose","fibexDir":REPO_TESTS}),
-        1 => serde_json::json!({"name":"SomeIp","fibexDir":REPO_TESTS}),
-        2 => serde_json::json!({"name":"CAN","fibexDir":REPO_TESTS}),
-        3 => serde_json::json!({"name":"Muniic","jsonDir":format!("{}/muniic", REPO_TESTS)}),
-        4 => serde_json::from_str(&std::fs::read_to_string(format!("{}/rewrite.cfg", REPO_TESTS)).ok()?).ok()?,
+        0 => serde_json::json!({"name":"NonVerbose","fibexDir":repo_tests()}),
+        1 => serde_json::json!({"name":"SomeIp","fibexDir":repo_tests()}),
+        2 => serde_json::json!({"name":"CAN","fibexDir":repo_tests()}),
+        3 => serde_json::json!({"name":"Muniic","jsonDir":format!("{}/muniic", repo_tests())}),
+        4 => serde_json::from_str(&std::fs::read_to_string(format!("{}/rewrite.cfg", repo_tests())).ok()?).ok()?,
         _ => serde_json::json!({"name":"FileTransfer","allowSave":false,"keepFLDA":keep_flda}),
     };
     get_plugin(cfg.as_object()?, &mut eac)
